@@ -14,6 +14,7 @@
 -/
 import M4riProofs.MulR
 import M4riProofs.Strassen
+import M4riProofs.GenTie
 namespace M4ri.Props.C01
 open M4ri M4ri.BMat
 
@@ -92,5 +93,17 @@ theorem routes_agree (fuel cutoff k auto ntables thin thin' : Nat) (junk : Nat ‚
    m4rm_clear C A B k auto junk ntables thin hB hC.1 hr hc hk,
    mul_strassen fuel cutoff C A B false hA hB hC hk hr hc (by simp)‚ü©
 
+
+
+/-! ### tie to the C text: the functions below are GENERATED from /repo/m4ri by vlib/ctrans.py (clang AST) on every
+    check (M4ri/Gen/CFuns.lean); these theorems prove them equal to the hand-written model definitions the theorems
+    above are about, for all arguments of the C domain -/
+#check @M4ri.GenTie.closer_eq
+#check @M4ri.GenTie.mulEvenSplit_eq
+#check @M4ri.GenTie.addmulEvenSplit_eq
+#check @M4ri.GenTie.sqrEvenSplit_eq
+#check @M4ri.GenTie.addsqrEvenSplit_eq
+#check @M4ri.GenTie.strassen_fuel64
+#check @M4ri.GenTie.parity64_eq
 
 end M4ri.Props.C01
